@@ -9,5 +9,5 @@ if ! git -C "$WT" apply /verif/seeded/$NAME/patch.diff; then echo "PATCH DOES NO
 cd /verif
 for c in "$@"; do
   echo "== $NAME / $c"
-  SIGTOOLS_REPO="$WT" ./check $c --quick 2>&1 | grep -E "^(VIOLATION|OK|KNOWN|  )" | head -4
+  SIGTOOLS_REPO="$WT" ./check $c --quick 2>&1 | grep -E "^(VIOLATION|OK|  )" | head -3
 done
